@@ -27,6 +27,8 @@ class TapeRecorder:
     def __getattr__(self, basis_blade):
         if not re.match(r'^e[0-9a-fA-F]*$', basis_blade):
             raise AttributeError(f'{self.__class__.__name__} object has no attribute or basis blade {basis_blade}')
+        # Like MultiVector.__getattr__: any spelling of a blade is allowed, an odd permutation flips the sign.
+        basis_blade, swaps = self.algebra._blade2canon(basis_blade)
         if basis_blade not in self.algebra.canon2bin:
             return self.__class__(
                 algebra=self.algebra,
@@ -44,7 +46,7 @@ class TapeRecorder:
         else:
             return self.__class__(
                 algebra=self.algebra,
-                expr=f"({self.expr}[{idx}],)",
+                expr=f"({'-' if swaps % 2 else ''}{self.expr}[{idx}],)",
                 keys=(0,)
             )
 
